@@ -732,12 +732,19 @@ bool WPA2Decrypter::decrypt(PDU& pdu) {
         Dot11Data* data = pdu.find_pdu<Dot11Data>();
         RawPDU* raw = pdu.find_pdu<RawPDU>();
         if (data && raw && data->wep()) {
-            // search for the tuple (bssid, src_addr)
-            keys_map::const_iterator it = keys_.find(extract_addr_pair(*data));
+            // frames coming from the DS are encrypted with the keys of the 
+            // receiving station, every other frame with those of the sender: 
+            // search for the tuple (bssid, dst_addr) resp. (bssid, src_addr) first
+            const bool from_ap = data->from_ds() && !data->to_ds();
+            keys_map::const_iterator it = keys_.find(
+                from_ap ? extract_addr_pair_dst(*data) : extract_addr_pair(*data)
+            );
             
-            // search for the tuple (bssid, dst_addr) if the above didn't work
+            // search for the other tuple if the above didn't work
             if (it == keys_.end()) {
-                it = keys_.find(extract_addr_pair_dst(*data));
+                it = keys_.find(
+                    from_ap ? extract_addr_pair(*data) : extract_addr_pair_dst(*data)
+                );
             }
             if (it != keys_.end()) {
                 SNAP* snap = it->second.decrypt_unicast(*data, *raw);
